@@ -281,3 +281,15 @@ impl Obs {
         }
     }
 }
+
+/// custom parse error whose type mentions the enum's own type parameter
+pub struct MyErrG<T>(pub String, pub std::marker::PhantomData<T>);
+impl<T> std::fmt::Debug for MyErrG<T> {
+    fn fmt(&self, f: &mut std::fmt::Formatter<'_>) -> std::fmt::Result {
+        write!(f, "MyErr({:?})", self.0)
+    }
+}
+pub fn my_err_g<T>(s: &str) -> MyErrG<T> {
+    MY_ERR_CALLS.with(|c| c.set(c.get() + 1));
+    MyErrG(s.to_string(), std::marker::PhantomData)
+}
